@@ -3,6 +3,7 @@
 package main
 
 import (
+	"encoding/hex"
 	"encoding/json"
 	"os"
 	"path/filepath"
@@ -55,6 +56,14 @@ func hintSources() [][]byte {
 		for _, c := range h.Cases {
 			i := strings.IndexByte(c.Op, '"')
 			if i < 0 {
+				// ops that carry the source as hex: "roundtrip <family> <n> <hex>"
+				f := strings.Fields(c.Op)
+				if len(f) > 0 {
+					if b, err := hex.DecodeString(f[len(f)-1]); err == nil && len(b) > 0 && !seen[string(b)] {
+						seen[string(b)] = true
+						out = append(out, b)
+					}
+				}
 				continue
 			}
 			q, err := strconv.QuotedPrefix(c.Op[i:])
